@@ -10,6 +10,7 @@ from __future__ import annotations
 
 import threading as real_threading
 
+import dns.btree
 import dns.btreezone
 import dns.name
 import dns.rdata
@@ -23,7 +24,14 @@ from .. import sched as S
 PROPERTY = "C12"
 LEVEL = "model_checking"
 
-ZONE_KINDS = {"versioned": dns.versioned.Zone, "btree": dns.btreezone.Zone}
+class SmallTZone(dns.btreezone.Zone):
+    """B-tree zone with the smallest branching factor: a dozen names already make writers
+    split, steal from and merge B-tree nodes that are shared with the versions readers pin."""
+    map_factory = staticmethod(lambda: dns.btree.BTreeDict(t=3))
+
+
+ZONE_KINDS = {"versioned": dns.versioned.Zone, "btree": dns.btreezone.Zone, "btree-small-t": SmallTZone}
+NFILL = 12
 
 
 def trace_codes(level):
@@ -70,6 +78,9 @@ class Harness:
             with z.writer(True) as txn:
                 txn.add("@", 300, dns.rdata.from_text("IN", "SOA", ". . 1 2 3 4 5"))
                 txn.add("log", 300, txt("-"))
+                if kind == "btree-small-t":
+                    for i in range(NFILL):
+                        txn.add("f%02d" % i, 300, dns.rdata.from_text("IN", "A", "10.1.0.%d" % i))
         except BaseException:
             dns.versioned.threading = real_threading
             raise
@@ -110,6 +121,11 @@ class Harness:
                 if upoints >= 3:
                     sc.point()
                 txn.add("n2", 300, dns.rdata.from_text("IN", "A", "10.0.0.%d" % wid))
+                if self.cfg["kind"] == "btree-small-t":
+                    # every third filler across the whole name range: splits, steals from both
+                    # sides and merges in nodes that are shared with the versions readers pin
+                    for i in range(wid % 3, NFILL, 3):
+                        txn.delete("f%02d" % i)
                 if upoints >= 1:
                     sc.point()
             finally:
@@ -151,6 +167,12 @@ class Harness:
             if upoints >= 2:
                 sc.point()
             b = get_as(txn, "n2")
+            if self.cfg["kind"] == "btree-small-t":
+                fill = sorted(str(n)[:3] for n in txn.iterate_names() if str(n).startswith("f"))
+                gone = {int(ch) % 3 for ch in (log or "")[1:]}
+                want = sorted("f%02d" % i for i in range(NFILL) if i % 3 not in gone)
+                if fill != want:
+                    sc.problem("reader-partial-state", "reader %d (log %r) sees filler names %s, its version holds %s" % (rid, log, fill, want))
             pinned("before closing")
             txn.rollback()  # ends the read transaction
             # non-transactional single reads of the published map
@@ -330,6 +352,7 @@ def configs(ctx):
         add("versioned", 3, 0, ("commit", "rollback", "commit-with"), "sync", 1, 3)
         add("versioned", 3, 1, ("commit-with", "raise-with", "commit"), "sync", 0, 2)
         add("btree", 3, 0, ("commit", "commit", "rollback"), "line", 1, 1)
+        add("btree-small-t", 2, 1, ("commit", "rollback"), "sync", 2, 2)
     else:
         add("versioned", 3, 0, ("commit", "commit", "commit"), "line", 0, 2)
         add("versioned", 3, 0, ("commit", "rollback", "commit-with"), "line", 1, 2)
@@ -345,6 +368,8 @@ def configs(ctx):
         add("versioned", 5, 0, ("commit",) * 5, "sync", 0, 1)
         add("btree", 3, 1, ("commit", "commit", "rollback"), "line", 1, 1)
         add("btree", 3, 0, ("commit", "commit", "commit"), "line", 0, 2)
+        add("btree-small-t", 3, 1, ("commit", "rollback", "commit"), "sync", 2, 2)
+        add("btree-small-t", 2, 2, ("commit", "commit"), "sync", 2, 2)
     return out
 
 
